@@ -134,9 +134,45 @@ def call_pool(rng, n_per_kind):
     calls.append({"kind": "load_one", "path": os.path.join(data, "water.xyz"), "fmt": "fchk"})       # fails: wrong format
     calls.append({"kind": "load_one", "path": os.path.join(data, "water.xyz"), "fmt": "nonexistent"})  # fails: unknown format
     calls.append({"kind": "load_many", "path": os.path.join(data, "water.mol2"), "fmt": "cube"})     # fails: unsupported
+    # calls that leave the format to be guessed from the file name (fmt=None), several operations on ONE name: names that match
+    # the patterns of two formats with different capabilities (POSCAR* + *.xyz, ...) resolve per operation, whatever was asked
+    # of the same name before; unambiguous names as controls
+    for name in ("POSCAR_traj.xyz", "CHGCAR.mol2", "LOCPOT_1.sdf", "mol.FCIDUMP.pdb", "POSCAR.fchk", "AECCAR0.xyz", "POSCAR.cube", "geom.xyz", "POSCAR"):
+        for op in ("dump_one", "dump_many", "load_one", "load_many"):
+            calls.append({"kind": "guess_" + op, "fmt": None, "name": name})
     for i, c in enumerate(calls):
         c["id"] = f"c{i:03d}"
     return calls
+
+
+GUESS_XYZ = "3\nfirst\nO 0.0 0.0 0.1\nH 0.0 0.8 -0.5\nH 0.0 -0.8 -0.5\n3\nsecond\nO 0.0 0.0 0.2\nH 0.0 0.9 -0.5\nH 0.0 -0.9 -0.5\n"
+
+
+def run_guess(c, tmp):
+    """One operation on a shared file name with the format left to be guessed; the file lives in a directory of the calling thread."""
+    import numpy as np
+    from iodata import IOData, api
+    from ..digest import digest
+    d = os.path.join(tmp, "g_" + threading.current_thread().name)
+    os.makedirs(d, exist_ok=True)
+    path = os.path.join(d, c["name"])
+    op = c["kind"][6:]
+    if op.startswith("load"):
+        with open(path, "w") as fh:
+            fh.write(GUESS_XYZ)
+        if op == "load_one":
+            return "obj:" + digest(api.load_one(path))
+        return "objs:" + hashlib.sha1(",".join(digest(o) for o in api.load_many(path)).encode()).hexdigest()
+    if os.path.exists(path):
+        os.remove(path)
+    objs = [IOData(atnums=np.array([8, 1, 1]), atcoords=np.array([[0.0, 0.0, 0.1 * k], [0.0, 1.5, -1.0], [0.0, -1.5, -1.0]]),
+                   cellvecs=np.diag([10.0, 11.0, 12.0]), title=f"guess {k}") for k in (1, 2)]
+    if op == "dump_one":
+        api.dump_one(objs[0], path)
+    else:
+        api.dump_many(iter(objs), path)
+    with open(path, "rb") as fh:
+        return "bytes:" + hashlib.sha1(fh.read()).hexdigest()
 
 
 def run_call(c, tmp):
@@ -148,6 +184,8 @@ def run_call(c, tmp):
         warnings.simplefilter("ignore")
         try:
             k = c["kind"]
+            if k.startswith("guess_"):
+                return run_guess(c, tmp)
             if k == "load_one":
                 return "obj:" + digest(api.load_one(c["path"], fmt=c["fmt"]))
             if k == "load_damaged":
@@ -352,7 +390,8 @@ def check(run: Run):
     rng = random.Random(run.seed)
     run.cov["rule"] = (
         "pool of API calls (load_one/load_many of corpus files of every module, dump_one of generated objects of every "
-        "format incl. rejected and converted ones, dump_many, write_input, conversions, failing calls); reference outcome "
+        "format incl. rejected and converted ones, dump_many, write_input, conversions, failing calls, the four operations with "
+        "the format guessed from one shared file name, incl. names matching two formats of different capabilities); reference outcome "
         "from a fresh interpreter per call; histories = seeded permutations with repetitions in one interpreter; schedules "
         "= 2..16 threads on distinct files plus forced two-thread alternation at open/write/read/close; distinct by "
         "(history or schedule, call)")
@@ -369,6 +408,9 @@ def check(run: Run):
     for h in range(run.pick(6, 24)):
         order = [rng.choice(ids) for _ in range(len(ids))] if h % 2 else rng.sample(ids, len(ids)) + rng.sample(ids, len(ids) // 2)
         seqs.append({"calls": calls, "order": order})
+    gids = [c["id"] for c in calls if c["kind"].startswith("guess_")]
+    for h in range(run.pick(2, 8)):
+        seqs.append({"calls": calls, "order": [rng.choice(gids) for _ in range(3 * len(gids))]})
     thr = []
     for nt in ([2, 4, 16] if not run.thorough() else [2, 3, 4, 8, 16, 16]):
         lists = [[rng.choice(ids) for _ in range(run.pick(12, 30))] for _ in range(nt)]
@@ -378,7 +420,7 @@ def check(run: Run):
     for nt in ([2, 4, 8] if not run.thorough() else [2, 2, 3, 4, 4, 8, 8, 16]):
         lists = [[rng.choice(heavy) for _ in range(run.pick(8, 20))] for _ in range(nt)]
         thr.append({"calls": calls, "threads": lists, "switch": 1e-5})
-    io_calls = [c["id"] for c in calls if c["kind"] in ("dump_one", "dump_many", "load_one", "load_many", "convert", "dump_wfn")]
+    io_calls = [c["id"] for c in calls if c["kind"] in ("dump_one", "dump_many", "load_one", "load_many", "convert", "dump_wfn") or c["kind"].startswith("guess_")]
     for pts in (["open"], ["write", "read"], ["open", "close"], ["open", "write", "read", "close"]):
         for rep in range(run.pick(2, 6)):
             lists = [[rng.choice(io_calls) for _ in range(10)] for _ in range(2)]
@@ -401,7 +443,7 @@ def check(run: Run):
         if r != len(tr):
             e = res["events"][r - 1]
             c = byid[e["call"]]
-            desc = f"{c['kind']} {c.get('fmt')}" + (f"->{c['out']}" if "out" in c else "")
+            desc = f"{c['kind']} {c.get('fmt') or c.get('name')}" + (f"->{c['out']}" if "out" in c else "")
             if e["glob"] != res["glob0"]:
                 changed = e.get("changed") or next((x.get("changed") for x in res["events"] if x.get("changed")), [])
                 key = f"{kind}: module-level table changed: {','.join(changed) or '?'}" + (f" after {desc}" if kind == "seq" else "")
